@@ -6,7 +6,7 @@ from .emit import events_of_trace, flat_puts
 from .engine import VERIF, load_json
 from .facts import callee, show, site, unwrap, walk
 from .symx import all_calls, closure_paths, cshow, paths_of, tshow
-from .terms import display_norm, is_call, mentions, pat_variants, same, subterms
+from .terms import display_norm, is_call, is_map_call, mentions, pat_variants, same, subterms
 
 V = "ipp::value::IppValue::"
 VT = "ipp::model::ValueTag::"
@@ -397,6 +397,27 @@ def r_layout(run, F, T, external=True, rule="R-LAYOUT", casts=True):
         n_dec += 1
         for di, (dp, ditems) in enumerate(dec[vp]):
             sfx = "" if di == 0 else "|path%d" % di
+            # what decides that this arm decodes the value: the tag, for fixed-size syntaxes `len == size`, for with-language the two inner strings.
+            # Any further condition is an extra acceptance test: well-formed values that fail it are rejected or decoded as something else.
+            size = sum(it[0] for it in spec["body"] if isinstance(it, list))
+            fixed = all(isinstance(it, list) for it in spec["body"]) and bool(spec["body"])
+            for c in dp.conds:
+                okc = False
+                if c[0] == "match":
+                    okc = is_call(c[1], "num_traits::FromPrimitive::from_u8") or (isinstance(c[1], tuple) and c[1][0] == "proj" and is_call(c[1][1], "num_traits::FromPrimitive::from_u8")) \
+                        or is_call(c[1], "ipp::model::ValueTag::from_u8")
+                elif c[0] == "guard" and c[2] is True:
+                    g = c[1]
+                    if isinstance(g, tuple) and g[0] == "bin" and g[1] == "Eq" and g[2][0] == "lit" and is_call(g[3]):
+                        g = ("bin", "Eq", g[3], g[2])       # commuted
+                    okc = isinstance(g, tuple) and g[0] == "bin" and g[1] == "Eq" and is_call(g[2]) and g[2][1] in ("bytes::Bytes::len", "bytes::Buf::remaining") and \
+                        g[3][0] == "lit" and (not fixed or g[3][1] == size)
+                elif c[0] == "if":
+                    okc = is_call(c[1], "<is_err>") and c[2] is False and is_call(c[1][2][0], "ipp::value::get_len_string")
+                run.ob(rule, "decoder arm of %s is selected by tag and exact length only" % k, okc,
+                       "extra or unrecognised condition on the decoding path of %s: %s (accepted: the tag match, `data.len() == %s` for a fixed-size syntax, "
+                       "success of the inner length-prefixed strings)" % (k, cshow(c)[:160], size if fixed else "n"), site(pb),
+                       key="%s|dec|%s|condition|%s" % (rule, k, cshow(c)[:60]))
             dgot = []
             for it in ditems:
                 if it[0] == "int":
@@ -520,6 +541,10 @@ def r_tagbody_bracket(run, F, T, rule="R-TAGBODY"):
                        tshow(lp.iter)[:100], site(eb), key="%s|Array|iter" % rule)
                 for conds, bevs, kind in lp.bodies:
                     n += check_pairs(run, bevs, conds, "Array", eb, rule)
+                    nb = sum(1 for e in bevs if body_of(e) is not None)
+                    run.ob(rule, "Array arm: every element is emitted, once", nb == 1,
+                           "an iteration of the element loop emits %d value bodies under [%s]: elements are skipped or repeated" % (nb, " && ".join(cshow(c) for c in conds)[-160:]),
+                           site(eb), key="%s|Array|element-count|%d" % (rule, nb))
                 # some path must emit an untagged first body and some path a tagged one
                 kinds = {"first": 0, "rest": 0}
                 for conds, bevs, kind in lp.bodies:
@@ -678,13 +703,21 @@ def r_mapkey(run, F, rule="R-MAPKEY"):
     for path, body in F.hir.items():
         if "::tests::" in path or body["kind"] not in ("Fn", "AssocFn"):
             continue
-        hits = [x for x in walk(body["body"]) if x.get("k") == "mcall" and (x.get("callee") or "").endswith("HashMap::<K, V, S, A>::insert") and
+        # who-may-mutate: an attribute map is only ever changed by insert (replace by name); entry / or_insert* / try_insert keep the *first* value
+        for x in walk(body["body"]):
+            if x.get("k") == "mcall" and is_map_call(x.get("callee") or "") and "IppAttribute" in str(unwrap(x["recv"]).get("ty") or "") + str((x.get("gargs") or "")):
+                nm = x["name"]
+                if nm in ("entry", "try_insert", "get_or_insert_with", "raw_entry_mut", "retain", "remove", "remove_entry", "clear", "drain", "extract_if", "append", "extend"):
+                    run.ob(rule, "%s: attribute maps are changed by insert only" % path.split("::", 2)[-1], False,
+                           "%s on an attribute map: %s (entry/or_insert keep the first attribute of a name where insert keeps the last; remove/retain drop attributes)" % (nm, show(x)[:100]),
+                           site(body, x), key="%s|%s|mutation|%s" % (rule, path, nm))
+        hits = [x for x in walk(body["body"]) if x.get("k") == "mcall" and is_map_call(x.get("callee") or "", "insert") and
                 "ipp::attribute::IppAttribute" in ((x.get("gargs") or ["", ""])[1:2] or [""])[0]]
         if not hits:
             continue
         for p in paths_of(body):
             for t, _ in all_calls(p):
-                if is_call(t) and t[1].endswith("HashMap::<K, V, S, A>::insert") and len(t) > 3 and any(t[3] is h for h in hits):
+                if is_call(t) and is_map_call(t[1], "insert") and len(t) > 3 and any(t[3] is h for h in hits):
                     n += 1
                     key, val = display_norm(t[2][1]), t[2][2]
                     ok = False
